@@ -100,6 +100,9 @@ class Sim:
             self._compare(res, "after probe_undo")
             return
         self.clean = False
+        if kind == "fork":
+            self.objs = {name: g.copy() for name, g in self.objs.items()}     # continue on copies
+            return
         for g in self.objs.values():
             if kind == "reveal":
                 g.reveal_value(self.v[op[1]], repo.coal(op[1]))
@@ -342,6 +345,11 @@ def make_machine(max_n: int, with_1000: bool):
             k = sorted(self.sim.K - {0})
             m = k[i % len(k)]
             self._do(["overwrite", m, self.sim.v[m] + delta])
+
+        @precondition(lambda self: self.sim is not None)
+        @rule()
+        def fork(self):
+            self._do(["fork"])
 
         @precondition(lambda self: self.sim is not None)
         @rule(seed=st.integers(0, 2**31))
